@@ -278,6 +278,21 @@ def dyadic(x):
     return f.denominator <= 1024
 
 
+def build_sd(sd):
+    """the real constructor on the description; with sd["supermap"] the screen is given the treatment / sample mappings of a
+    larger screen (one more sample, one more treatment: what a hold-out half or a reloaded screen carries), so that every
+    Screen(..., treatment_mapping=, sample_mapping=) call of the code under test runs the encoders' existing-mapping branch"""
+    if not sd.get("supermap") or not sd["rows"]:
+        return screenlib.build(sd)
+    from batchie.data import Screen
+
+    extra = dict(s="zz_extra", p="zz_plate", t=[["zz", 9.0]] * sd["arity"], o=0.5, m=True)
+    uni = screenlib.build(dict(sd, rows=list(sd["rows"]) + [extra]))
+    tn, td, sn, pn, obs, mask = screenlib.arrays(sd)
+    return Screen(treatment_names=tn, treatment_doses=td, sample_names=sn, plate_names=pn, control_treatment_name=sd["ctrl"], observations=obs,
+                  observation_mask=mask, treatment_mapping=uni.treatment_mapping, sample_mapping=uni.sample_mapping)
+
+
 def execute(desc):
     """run the implementation; returns dict(wire, impl, inp=<canonical input rows or None>, rec, cmp)"""
     from batchie import retrospective as R
@@ -288,7 +303,7 @@ def execute(desc):
     rec = Rec()
     rng = RecRng(desc.get("seed", 0), rec)
     k = desc["kind"]
-    built = common.impl_call(screenlib.build, sd)
+    built = common.impl_call(build_sd, sd)
     if isinstance(built, ImplError):
         inp = None
     else:
@@ -345,7 +360,14 @@ def execute(desc):
         cmpf = common.cmp_result()
     if rec.contract and not isinstance(impl, ImplError):
         raise RuntimeError("library contract violated: %r" % (rec.contract,))
-    return dict(wire=wire, impl=impl, inp=inp, rec=rec, cmp=cmpf)
+    impure = None
+    if inp is not None:
+        # purity: the caller's screen is as it was (rows, plate labels, mask, values, order) - an operation that returns the right
+        # screen but relabels / reorders / re-masks the screen it was GIVEN has altered experiments the caller still holds
+        after = common.impl_call(screenlib.canon_rows, built)
+        if after != inp:
+            impure = "input-screen-mutated: the screen handed to the operation changed in place: %s -> %s" % (common.short(inp, 160), common.short(after, 160))
+    return dict(wire=wire, impl=impl, inp=inp, rec=rec, cmp=cmpf, impure=impure)
 
 
 # ----------------------------------------------------------------------------- C11 predicates (on the implementation)
@@ -353,6 +375,18 @@ def execute(desc):
 
 def multiset(xs):
     return Counter(xs)
+
+
+def ceil_ok(n, fr, got):
+    """is `got` the number ceil(fraction x size)?  The exact value is the ceiling of the rational product (the fraction being the
+    double given); the implementation multiplies in floating point, which differs from the exact product only by rounding TO an
+    integer k that the exact product exceeds by less than an ulp (0.1 x 10): then k - the ceiling for the decimal the user wrote -
+    is accepted as well.  Nothing here is computed the way the implementation computes it except that one float product."""
+    exact = math.ceil(Fraction(fr) * n)
+    if got == exact:
+        return True
+    prod = n * fr
+    return got == exact - 1 and prod == int(prod) and int(prod) == got
 
 
 def pred_conserve(desc, inp, out):
@@ -387,13 +421,16 @@ def pred_conserve(desc, inp, out):
                 want = math.ceil(len(rs) * fr)
                 if dyadic(fr) and want != math.ceil(Fraction(len(rs)) * Fraction(fr)):
                     return "float product not exact for a dyadic fraction (harness assumption)"
-                if hc.get(p, 0) != want:
+                if 0 <= fr <= 1 and not ceil_ok(len(rs), fr, hc.get(p, 0)):
+                    return "plate %r of size %d: %d held out, expected ceil(%r x size) = %d (exact rational ceiling)" % (
+                        common.l2s(p), len(rs), hc.get(p, 0), fr, math.ceil(Fraction(fr) * len(rs)))
+                if not (0 <= fr <= 1) and hc.get(p, 0) != want:
                     return "plate %r of size %d: %d held out, expected ceil(%r*size)=%d" % (common.l2s(p), len(rs), hc.get(p, 0), fr, want)
             if sum(hc.values()) != sum(hc.get(p, 0) for p in plates_of(inp)):
                 return "hold-out rows from a plate that is not an unobserved input plate"
         else:
-            if len(held) != math.ceil(len(inp) * fr):
-                return "random hold-out has %d rows, expected %d" % (len(held), math.ceil(len(inp) * fr))
+            if (not ceil_ok(len(inp), fr, len(held))) if 0 <= fr <= 1 else (len(held) != math.ceil(len(inp) * fr)):
+                return "random hold-out has %d rows, expected ceil(%r x %d) = %d" % (len(held), fr, len(inp), math.ceil(Fraction(fr) * len(inp)))
         return None
     if k == "sparse":
         if [nomask(r[:1] + [[]] + r[2:]) for r in out] != [nomask(r[:1] + [[]] + r[2:]) for r in inp]:
@@ -529,6 +566,17 @@ def pred_shape(desc, inp, out):
                 byi.setdefault(sname(rs[0]), []).append(len(rs))
             if all(len(z) < 2 or sorted(z)[0] + sorted(z)[1] > ms for z in byi.values()) and unobs(out) != unobs(inp):
                 return "mergemin-merged-beyond-stop: merged although every sample already met the stop rule"
+        if c == "mergemin":
+            # "stops EXACTLY when the two smallest together exceed min_size", per sample and per step: the sizes are all the rule
+            # reads, and whichever of several equally small plates is taken the multiset of sizes after each merge is the same,
+            # so the plate sizes of every sample must be the replay of the rule on its input sizes
+            for s, szs_in in byi.items():
+                h = sorted(szs_in)
+                while len(h) >= 2 and h[0] + h[1] <= ms:
+                    h = sorted([h[0] + h[1]] + h[2:])
+                if sorted(by.get(s, [])) != h:
+                    return "mergemin-not-exact-stop: sample %r: plate sizes %r became %r, merging the two smallest while they sum to <= %d gives %r" % (
+                        common.l2s(s), sorted(szs_in), sorted(by.get(s, [])), ms, h)
         if c == "mergetb":
             ci, co = sample_plate_counts(inp), sample_plate_counts(out)
             for s, n in ci.items():
@@ -557,7 +605,9 @@ def gen_screen(rng, style=None, all_observed=False, arity=None, n_treat=None):
     style = style or rng.choice(["one_sample_plates", "one_sample_plates", "mixed", "single_plate", "many_plates"])
     ctrl = rng.choice(["", "", "control"])
     arity = arity or rng.choice([1, 2, 2, 2, 2, 3])
-    samples = rng.sample(SAMPLES, rng.randint(1, 4))
+    samples = rng.sample(SAMPLES, rng.choice([1, 2, 3, 4, 1, 2, 3, 4, 5, 7]))
+    special = rng.random() < 0.1        # NaN / inf / -0.0 / subnormal / float32-rounded observation values
+    supermap = rng.random() < 0.2       # the screen carries mappings of a larger universe (retrolib.build_sd)
     tn = rng.sample(TNAMES, n_treat or rng.randint(1, 4))
     doses = rng.sample([0.5, 1.0, 2.0, 3.0], rng.randint(1, 2))
     rows = []
@@ -572,11 +622,15 @@ def gen_screen(rng, style=None, all_observed=False, arity=None, n_treat=None):
                 t.append([rng.choice(tn), rng.choice(doses)])
         counter[0] += 1
         o = counter[0] / 64.0 if rng.random() < 0.85 else 0.25
+        if special and rng.random() < 0.5:
+            o = rng.choice([float("nan"), float("inf"), -0.0, 5e-324, 0.10000000149011612, 0.0, -1.5])
         return dict(s=s, p=p, t=t, o=o, m=m)
 
     n_pl = rng.choice([1, 1, 2, 3, 3, 4, 5, 6])
     if style == "single_plate":
         n_pl = 1
+    if style == "big_plates":
+        n_pl = rng.choice([1, 2, 2, 3])
     if style == "many_plates":
         # one or two samples with many small single-sample plates (heap / pairing logic of the merge smoothers
         # and odd plate counts over several top-bottom iterations only show with >= 4 plates of one sample)
@@ -587,6 +641,8 @@ def gen_screen(rng, style=None, all_observed=False, arity=None, n_treat=None):
         if any(r["p"] == p for r in rows):
             p = "q%d" % j
         sz = rng.choice([1, 1, 2, 2, 3, 4, 5, 7]) if style != "many_plates" else rng.choice([1, 1, 1, 2, 2, 3])
+        if style == "big_plates":           # sizes at which float and exact ceil(fraction x size) part ways (0.1 x 10, 0.3 x 10, 0.7 x 30 ...)
+            sz = rng.choice([10, 10, 20, 30, 9, 11])
         ps = rng.choice(samples)
         for _ in range(sz):
             s = ps if style in ("one_sample_plates", "many_plates") else rng.choice(samples)
@@ -606,7 +662,7 @@ def gen_screen(rng, style=None, all_observed=False, arity=None, n_treat=None):
             r["m"] = True
     if rng.random() < 0.5:
         rng.shuffle(rows)
-    return dict(rows=rows, arity=arity, ctrl=ctrl, obs_given=True, mask_given=True, tmap=None, smap=None)
+    return dict(rows=rows, arity=arity, ctrl=ctrl, obs_given=True, mask_given=True, tmap=None, smap=None, **(dict(supermap=True) if supermap else {}))
 
 
 def inject_all_control(rng, sd):
@@ -650,6 +706,12 @@ def features(desc, res):
         per_sample[pl[0]] += 1
     if per_sample and max(per_sample.values()) >= 4:
         f.append("sample-with->=4-plates")
+    if sd.get("supermap"):
+        f.append("superset-mappings")
+    if any(r["o"] != r["o"] or r["o"] in (float("inf"), 5e-324) for r in rows):
+        f.append("special-observation-values")
+    if len({r["s"] for r in rows}) > 4:
+        f.append(">4-samples")
     if isinstance(res["impl"], ImplError):
         f.append("raises")
     if not any(not r["m"] for r in rows) and desc["kind"] in ("gen", "smooth", "holdout"):
